@@ -37,7 +37,7 @@ fn first_chunk_len<B: Buf>(b: &B) -> usize {
     b.chunk().len()
 }
 
-pub fn gen_op(rng: &mut Rng, rest_len: usize, chunk_len: usize, root_is_take: bool, focus: &str) -> J {
+pub fn gen_op(rng: &mut Rng, rest_len: usize, chunk_len: usize, root_is_take: bool, root_is_chain: bool, focus: &str) -> J {
     let n_arg = |rng: &mut Rng| -> usize {
         match rng.below(30) {
             0 | 1 => 0,
@@ -115,11 +115,18 @@ pub fn gen_op(rng: &mut Rng, rest_len: usize, chunk_len: usize, root_is_take: bo
                 } else {
                     J::obj().set("op", "get_mut_advance").set("n", rng.range(0, 3))
                 }
+            } else if root_is_chain {
+                // give one half of a root chain bytes again, through first_mut()/last_mut()
+                J::obj().set("op", "chain_refill").set("side", rng.below(2)).set("seed", rng.next_u64()).set("n", rng.range(1, 20)).set("back", rng.range(1, 12))
             } else {
                 J::obj().set("op", "advance").set("n", n_arg(rng))
             }
         }
-        _ => J::obj().set("op", "into_iter").set("k", rng.range(0, rest_len)),
+        _ => {
+            // iterator protocol: a short script of next / nth(j) / len calls
+            let calls: Vec<J> = (0..rng.range(0, 4)).map(|_| J::from(if rng.chance(1, 2) { 0usize } else { rng.range(1, rest_len + 3) })).collect();
+            J::obj().set("op", "into_iter").set("k", rng.range(0, rest_len)).set("nth", J::Arr(calls))
+        }
     }
 }
 
@@ -400,6 +407,8 @@ pub fn run(plan: &J, given: Option<&[J]>, rng: &mut Rng, max_ops: usize, focus: 
     let mut digest = rt::Fnv::default();
     let mut ended = false;
     let mut consumed_iter = false;
+    let root_is_chain = plan.str("k") == Some("chain");
+    let mut refilled = false;
 
     check_state(&mut cx, &node, &rest, "fresh nest");
     let n_ops = given.map(|g| g.len()).unwrap_or(max_ops);
@@ -407,7 +416,7 @@ pub fn run(plan: &J, given: Option<&[J]>, rng: &mut Rng, max_ops: usize, focus: 
     while k < n_ops && cx.viol.is_empty() && !ended {
         let op = match given {
             Some(g) => g[k].clone(),
-            None => gen_op(rng, rest.len(), node.chunk().len(), root_is_take, focus),
+            None => gen_op(rng, rest.len(), node.chunk().len(), root_is_take, root_is_chain, focus),
         };
         if given.is_none() {
             journal.line(&op.dump());
@@ -576,6 +585,51 @@ pub fn run(plan: &J, given: Option<&[J]>, rng: &mut Rng, max_ops: usize, focus: 
                 }
                 Flow::Continue
             }
+            "chain_refill" => {
+                if let Node::Chain(c) = &mut node {
+                    let a_rem = c.first_ref().remaining();
+                    let side = op.us("side");
+                    let x = Rng::new(op.u64("seed")).bytes(op.us("n").min(64));
+                    let back = op.us("back");
+                    let target: &mut Node = if side == 0 { c.first_mut() } else { c.last_mut() };
+                    let t_rem = target.remaining();
+                    let base = if side == 0 { 0 } else { a_rem };
+                    // (insertion index, inserted bytes)
+                    let ins: Option<(usize, Vec<u8>)> = match target {
+                        Node::BytesMut(m) => {
+                            m.extend_from_slice(&x);
+                            Some((base + t_rem, x))
+                        }
+                        Node::Deque(d) => {
+                            d.extend(x.iter().copied());
+                            Some((base + t_rem, x))
+                        }
+                        Node::CursorVec(cu) => {
+                            let len = cu.get_ref().len() as u64;
+                            let pos = cu.position().min(len);
+                            let np = pos.saturating_sub(back as u64);
+                            let again = cu.get_ref()[np as usize..pos as usize].to_vec();
+                            cu.set_position(np);
+                            Some((base, again))
+                        }
+                        _ => None,
+                    };
+                    if let Some((at, bytes)) = ins {
+                        if at <= rest.len() && base + t_rem <= rest.len() {
+                            rest.splice(at..at, bytes);
+                            refilled = true;
+                            cx.hit(if side == 0 { "chain_first_refilled" } else { "chain_last_refilled" });
+                            if side == 0 && t_rem == 0 && a_rem == 0 && rest.len() > 0 {
+                                cx.hit("chain_first_refilled_after_drained");
+                            }
+                        } else {
+                            // the halves disagree with the model already; the state check reports it
+                            refilled = true;
+                        }
+                    }
+                }
+                Flow::Continue
+            }
             "get_mut_advance" => {
                 if let Node::Take(t) = &mut node {
                     let n = op.us("n").min(inner_rest.len());
@@ -590,6 +644,7 @@ pub fn run(plan: &J, given: Option<&[J]>, rng: &mut Rng, max_ops: usize, focus: 
                 let kk = op.us("k").min(rest.len());
                 let len = rest.len();
                 let taken = std::mem::replace(&mut node, Node::Slice(&[]));
+                let nth_calls: Vec<usize> = op.arr("nth").iter().map(|j| j.as_int() as usize).collect();
                 let r = catch_unwind(AssertUnwindSafe(move || {
                     let mut it = IntoIter::new(taken);
                     let h0 = it.size_hint();
@@ -601,18 +656,29 @@ pub fn run(plan: &J, given: Option<&[J]>, rng: &mut Rng, max_ops: usize, focus: 
                         }
                     }
                     let h1 = it.size_hint();
+                    // then nth(j) (0 = plain next) calls, each followed by len()
+                    let mut proto: Vec<(Option<u8>, usize)> = Vec::new();
+                    for &j in nth_calls.iter() {
+                        let v = if j == 0 { it.next() } else { it.nth(j - 1) };
+                        proto.push((v, it.len()));
+                    }
                     let mut tail = Vec::new();
                     let inner = it.into_inner();
-                    (h0, got, h1, inner.remaining(), {
+                    (h0, got, h1, inner.remaining(), proto, {
                         tail.extend_from_slice(inner.chunk());
                         tail
                     })
                 }));
                 consumed_iter = true;
                 match r {
-                    Ok((h0, got, h1, rem, _tail)) => {
-                        if got[..] != rest[..kk] || h0 != (len, Some(len)) || h1 != (len - kk, Some(len - kk)) || rem != len - kk {
-                            cx.law("into_iter", format!("into_iter: {} items of {} requested, size_hint {:?} -> {:?}, {} left (expected {})", got.len(), kk, h0, h1, rem, len - kk));
+                    Ok((h0, got, h1, rem, proto, _tail)) => {
+                        // model: a slice iterator over the same bytes
+                        let mut mi = rest[kk..].iter().copied();
+                        let want: Vec<(Option<u8>, usize)> = op.arr("nth").iter().map(|j| { let j = j.as_int() as usize; let v = if j == 0 { mi.next() } else { mi.nth(j - 1) }; (v, mi.len()) }).collect();
+                        if got[..] != rest[..kk] || h0 != (len, Some(len)) || h1 != (len - kk, Some(len - kk)) || rem != mi.len() {
+                            cx.law("into_iter", format!("into_iter: {} items of {} requested, size_hint {:?} -> {:?}, {} left (expected {})", got.len(), kk, h0, h1, rem, mi.len()));
+                        } else if proto != want {
+                            cx.law("into_iter-nth", format!("into_iter: next/nth script {} returned (item, len) {:?}, a slice iterator gives {:?}", J::Arr(op.arr("nth").to_vec()).dump(), proto, want));
                         }
                     }
                     Err(p) => cx.law("into_iter-panicked", format!("into_iter panicked: {}", rt::panic_message(&*p))),
@@ -651,7 +717,7 @@ pub fn run(plan: &J, given: Option<&[J]>, rng: &mut Rng, max_ops: usize, focus: 
     }
 
     // deep inspection: every inner buffer advanced by exactly what went through (C12)
-    if cx.viol.is_empty() && !ended && !consumed_iter {
+    if cx.viol.is_empty() && !ended && !consumed_iter && !refilled {
         let total = expose(plan).len();
         let consumed = total - rest.len().min(total);
         let mut d = Deep { problems: Vec::new(), leaves_checked: 0, adapters_checked: 0 };
